@@ -30,7 +30,7 @@ PCM16_SCALE = 32768.0     # libsndfile's float conversion of 16-bit samples: int
 # ------------------------------------------------------------------ files
 def sample_value(i: int, c: int) -> int:
     """Integer ramp: distinct over frames and channels, never zero, alternating sign."""
-    v = (i + 1) * 7 + c * 1000 + 1
+    v = ((i + 1) * 7 + c * 1000) % 32000 + 1  # stays a 16-bit value for files of any length (identical to the plain ramp for short files)
     return -v if i % 2 else v
 
 
